@@ -214,8 +214,15 @@ impl Scenario for C03 {
             92..=97 => r.range(4096, 65536) as usize,
             _ => r.range(1 << 20, 3 << 20) as usize,
         };
+        let len = if crate::data::small() { len.min(300) } else { len };
         let pool = draw_data(r, len);
-        let nops = if len > 1 << 19 { r.range(2, 8) } else { r.range(1, 64) } as usize;
+        let nops = if crate::data::small() {
+            r.range(1, 12)
+        } else if len > 1 << 19 {
+            r.range(2, 8)
+        } else {
+            r.range(1, 64)
+        } as usize;
         let sequential = r.chance(3, 4);
         let mut cursor = 0u32;
         let mut ops = Vec::with_capacity(nops);
